@@ -16,6 +16,10 @@ impl Group for PoolGroup {
     fn fixed(&self, _tier: &str) -> Vec<Case> {
         let l = |v: &[&str]| Case { lines: v.iter().map(|s| s.to_string()).collect() };
         vec![
+            // a request during a reaper pass that has two sessions to close (slow shutdowns)
+            l(&["pool reset 1000000 50 1", "pool mk", "pool mk", "pool mk", "pool add 0", "pool add 1", "pool add 2", "pool adv 100", "pool cleanupbg 3", "pool get", "pool state"]),
+            l(&["pool reset 1000000 50 1", "pool mk", "pool mk", "pool mk", "pool add 0", "pool add 1", "pool add 2", "pool adv 100", "pool cleanupbg 25", "pool get", "pool state"]),
+            l(&["pool reset 1000000 50 0", "pool mk", "pool mk", "pool mk", "pool mk", "pool add 0", "pool add 1", "pool add 2", "pool add 3", "pool adv 100", "pool cleanupbg 25", "pool get", "pool get", "pool state"]),
             // regression witness (DESIGN §6 D11): the first stream of a new session is open, min_idle = 0, one tick after the timeout
             l(&["pool reset 100 200 0", "pool mk", "pool add 0", "pool open 0", "pool adv 400", "pool state"]),
             l(&["pool reset 50 100 2", "pool mk", "pool mk", "pool mk", "pool add 0", "pool add 1", "pool add 2", "pool adv 300", "pool state", "pool get", "pool get", "pool get", "pool get"]),
@@ -27,6 +31,19 @@ impl Group for PoolGroup {
         let timeout = *rng.pick(&[50u64, 100, 200, 400, 1000]);
         let min = *rng.pick(&[0u64, 1, 2, 5]);
         let mut lines = vec![format!("pool reset {interval} {timeout} {min}")];
+        if rng.chance(1, 8) {
+            // a request arrives while a reaper pass is closing sessions (slow shutdowns); no periodic pass interferes
+            let k = rng.range(2, 6);
+            let mut lines = vec![format!("pool reset 1000000 {timeout} {}", rng.below(3))];
+            for _ in 0..k { lines.push("pool mk".into()); }
+            for i in 0..k { lines.push(format!("pool add {i}")); }
+            if rng.chance(1, 3) { lines.push(format!("pool die {}", rng.below(k))); }
+            lines.push(format!("pool adv {}", timeout + rng.pick(&[0u64, 10, 500])));
+            lines.push(format!("pool cleanupbg {}", rng.pick(&[3u64, 25, 40])));
+            for _ in 0..rng.range(1, 3) { lines.push("pool get".into()); }
+            lines.push("pool state".into());
+            return Case { lines };
+        }
         if rng.chance(1, 2) {
             // structured history: several idle sessions, some die while idle, the rest expire together
             let k = rng.range(1, 6);
@@ -78,6 +95,9 @@ impl Group for PoolGroup {
             // sessions put into the idle map and not handed out since (the reaper removes an entry only by
             // closing its session, `get` only drops closed entries: an open member must still be in the map)
             let mut idle_shadow: Vec<usize> = vec![];
+            // sessions handed out by `get` (no longer in the idle map: housekeeping has no business with them)
+            let mut taken: Vec<usize> = vec![];
+            let mut bg: Option<tokio::task::JoinHandle<()>> = None;
             for line in &case.lines {
                 let toks: Vec<&str> = line.split_whitespace().collect();
                 let slot_start = (tokio::time::Instant::now() - t0).as_millis() as u64;
@@ -103,12 +123,14 @@ impl Group for PoolGroup {
                         p.add_idle_session(n.session.clone()).await;
                         let idx: usize = i.parse().unwrap();
                         if !n.session.is_closed() && !idle_shadow.contains(&idx) { idle_shadow.push(idx); }
+                        taken.retain(|x| *x != idx);
                         "ok".into()
                     }
                     ["pool", "get"] => {
                         let Some(p) = pool.as_ref() else { out.obs.push("nonode".into()); continue; };
-                        let healthy: Vec<usize> = idle_shadow.iter().copied().filter(|i| !nodes[*i].session.is_closed()).collect();
                         let got = p.get_idle_session().await;
+                        // (judged after the call: a pass of the reaper that runs concurrently finishes first - the call waits for the pool lock)
+                        let healthy: Vec<usize> = idle_shadow.iter().copied().filter(|i| !nodes[*i].session.is_closed()).collect();
                         // O (C13/C12): a request is served by an idle, healthy session whenever one exists
                         if got.is_none() && !healthy.is_empty() {
                             out.oracle.push(OracleFail { sig: "healthy_idle_session_ignored/get_idle_session".into(), detail: format!("no session returned although the open sessions {healthy:?} are idle in the pool") });
@@ -117,6 +139,7 @@ impl Group for PoolGroup {
                             Some(s) => {
                                 let idx = nodes.iter().position(|n| Arc::ptr_eq(&n.session, &s)).unwrap_or(999);
                                 idle_shadow.retain(|x| *x != idx);
+                                if idx < nodes.len() { taken.push(idx); }
                                 // O (C12): the pool never returns a session that is already closed
                                 if s.is_closed() { out.oracle.push(OracleFail { sig: "closed_session_handed_out/get_idle_session".into(), detail: format!("session {idx} is closed") }); }
                                 format!("some {idx}")
@@ -141,6 +164,17 @@ impl Group for PoolGroup {
                         p.cleanup_expired().await;
                         "ok".into()
                     }
+                    ["pool", "cleanupbg", ms] => {
+                        // a reaper pass whose session shutdowns take `ms` each, running concurrently with the following ops
+                        let Some(p) = pool.as_ref() else { out.obs.push("nonode".into()); continue; };
+                        let ms: u64 = ms.parse().unwrap_or(0);
+                        for n in nodes.iter() { n.wire.lock().unwrap().shutdown_delay = Some(Duration::from_millis(ms)); }
+                        tokio::time::sleep(Duration::from_millis(7)).await;
+                        let p2 = p.clone();
+                        bg = Some(tokio::spawn(async move { p2.cleanup_expired().await; }));
+                        tokio::time::sleep(Duration::from_millis(1)).await;
+                        "ok".into()
+                    }
                     ["pool", "adv", ms] => {
                         let ms: u64 = ms.parse().unwrap_or(0);
                         tokio::time::sleep(Duration::from_millis(ms)).await;
@@ -148,6 +182,7 @@ impl Group for PoolGroup {
                     }
                     ["pool", "state"] => {
                         let Some(p) = pool.as_ref() else { out.obs.push("nonode".into()); continue; };
+                        if let Some(h) = bg.take() { let _ = tokio::time::timeout(WATCHDOG, h).await; }
                         let closed: Vec<String> = nodes.iter().enumerate().filter(|(_, n)| n.session.is_closed()).map(|(i, _)| i.to_string()).collect();
                         format!("idle={} closed=[{}]", p.idle_count().await, closed.join(","))
                     }
@@ -157,6 +192,12 @@ impl Group for PoolGroup {
                 for (i, n) in nodes.iter().enumerate() {
                     if i < was_closed.len() && !was_closed[i] && n.session.is_closed() && by_owner != Some(i) && open_streams[i] > 0 {
                         out.oracle.push(OracleFail { sig: "reaper_closed_busy_session/session_idle_since_creation".into(), detail: format!("session {i} was closed by pool housekeeping while {} stream(s) were open on it (interval {} ms, timeout {} ms, min_idle {})", open_streams[i], cfg.0, cfg.1, cfg.2) });
+                    }
+                }
+                // O (C12): housekeeping never touches a session that a request has taken out of the pool
+                for (i, n) in nodes.iter().enumerate() {
+                    if i < was_closed.len() && !was_closed[i] && n.session.is_closed() && by_owner != Some(i) && taken.contains(&i) {
+                        out.oracle.push(OracleFail { sig: "reaper_closed_taken_session/handed_out_during_cleanup".into(), detail: format!("session {i} had been handed out by get_idle_session and was closed by pool housekeeping afterwards (timeout {} ms, min_idle {})", cfg.1, cfg.2) });
                     }
                 }
                 // O (C12): housekeeping never closes a healthy session when that leaves fewer idle sessions than the configured minimum
